@@ -14,4 +14,6 @@ struct CovReport {
     std::vector<std::string> uncovered_funcs;
 };
 CovReport cov_report();
+// pcs of never-executed edges inside functions that were entered (for finding unexplored branches)
+std::vector<uint64_t> cov_uncovered_pcs_in_entered_functions();
 }  // namespace sim
